@@ -59,6 +59,59 @@ impl<'a> ser::SerializeStruct for Collector<'a> { type Ok = (); type Error = Nev
     fn serialize_field<T: ?Sized + Serialize>(&mut self, _: &'static str, v: &T) -> Result<(), Never> { v.serialize(Collector(self.0)) } fn end(self) -> Result<(), Never> { Ok(()) } }
 impl<'a> ser::SerializeStructVariant for Collector<'a> { type Ok = (); type Error = Never;
     fn serialize_field<T: ?Sized + Serialize>(&mut self, _: &'static str, v: &T) -> Result<(), Never> { v.serialize(Collector(self.0)) } fn end(self) -> Result<(), Never> { Ok(()) } }
+
+/// canonical dump of a value: `s<chars>` | `n` | `o(<v>)` | `[<v>,…]` | `{<name>|<key>=<v>;…}` (names as dot-separated code points)
+pub fn enc(s: &str) -> String { if s.is_empty() { return "-".into(); } s.chars().map(|c| (c as u32).to_string()).collect::<Vec<_>>().join(".") }
+pub fn dump<T: Serialize>(v: &T) -> String { let mut out = String::new(); let _ = v.serialize(Dumper(&mut out)); out }
+pub struct Dumper<'a>(pub &'a mut String);
+pub struct DumpSeq<'a> { out: &'a mut String, first: bool, close: char, sep: char }
+macro_rules! opaque { ($($name:ident : $ty:ty),*) => { $(fn $name(self, _v: $ty) -> Result<(), Never> { self.0.push('?'); Ok(()) })* } }
+impl<'a> ser::Serializer for Dumper<'a> {
+    type Ok = (); type Error = Never;
+    type SerializeSeq = DumpSeq<'a>; type SerializeTuple = DumpSeq<'a>; type SerializeTupleStruct = DumpSeq<'a>; type SerializeTupleVariant = DumpSeq<'a>;
+    type SerializeMap = DumpSeq<'a>; type SerializeStruct = DumpSeq<'a>; type SerializeStructVariant = DumpSeq<'a>;
+    opaque!(serialize_bool: bool, serialize_i8: i8, serialize_i16: i16, serialize_i32: i32, serialize_i64: i64, serialize_u8: u8, serialize_u16: u16,
+            serialize_u32: u32, serialize_u64: u64, serialize_f32: f32, serialize_f64: f64, serialize_char: char, serialize_bytes: &[u8]);
+    fn serialize_str(self, v: &str) -> Result<(), Never> { self.0.push('s'); self.0.push_str(&enc(v)); Ok(()) }
+    fn serialize_none(self) -> Result<(), Never> { self.0.push('n'); Ok(()) }
+    fn serialize_some<T: ?Sized + Serialize>(self, v: &T) -> Result<(), Never> { self.0.push_str("o("); v.serialize(Dumper(self.0))?; self.0.push(')'); Ok(()) }
+    fn serialize_unit(self) -> Result<(), Never> { self.0.push('?'); Ok(()) }
+    fn serialize_unit_struct(self, _: &'static str) -> Result<(), Never> { self.0.push('?'); Ok(()) }
+    fn serialize_unit_variant(self, _: &'static str, _: u32, _: &'static str) -> Result<(), Never> { self.0.push('?'); Ok(()) }
+    fn serialize_newtype_struct<T: ?Sized + Serialize>(self, _: &'static str, v: &T) -> Result<(), Never> { v.serialize(self) }
+    fn serialize_newtype_variant<T: ?Sized + Serialize>(self, _: &'static str, _: u32, _: &'static str, v: &T) -> Result<(), Never> { v.serialize(self) }
+    fn serialize_seq(self, _: Option<usize>) -> Result<DumpSeq<'a>, Never> { self.0.push('['); Ok(DumpSeq { out: self.0, first: true, close: ']', sep: ',' }) }
+    fn serialize_tuple(self, _: usize) -> Result<DumpSeq<'a>, Never> { self.0.push('['); Ok(DumpSeq { out: self.0, first: true, close: ']', sep: ',' }) }
+    fn serialize_tuple_struct(self, _: &'static str, _: usize) -> Result<DumpSeq<'a>, Never> { self.0.push('['); Ok(DumpSeq { out: self.0, first: true, close: ']', sep: ',' }) }
+    fn serialize_tuple_variant(self, _: &'static str, _: u32, _: &'static str, _: usize) -> Result<DumpSeq<'a>, Never> { self.0.push('['); Ok(DumpSeq { out: self.0, first: true, close: ']', sep: ',' }) }
+    fn serialize_map(self, _: Option<usize>) -> Result<DumpSeq<'a>, Never> { self.0.push('?'); Ok(DumpSeq { out: self.0, first: true, close: '?', sep: ',' }) }
+    fn serialize_struct(self, name: &'static str, _: usize) -> Result<DumpSeq<'a>, Never> { self.0.push('{'); self.0.push_str(&enc(name)); self.0.push('|'); Ok(DumpSeq { out: self.0, first: true, close: '}', sep: ';' }) }
+    fn serialize_struct_variant(self, name: &'static str, _: u32, _: &'static str, _: usize) -> Result<DumpSeq<'a>, Never> { self.0.push('{'); self.0.push_str(&enc(name)); self.0.push('|'); Ok(DumpSeq { out: self.0, first: true, close: '}', sep: ';' }) }
+}
+impl<'a> DumpSeq<'a> {
+    fn item<T: ?Sized + Serialize>(&mut self, key: Option<&str>, v: &T) -> Result<(), Never> {
+        if !self.first { self.out.push(self.sep); }
+        self.first = false;
+        if let Some(k) = key { self.out.push_str(&enc(k)); self.out.push('='); }
+        v.serialize(Dumper(self.out))
+    }
+    fn finish(self) -> Result<(), Never> { self.out.push(self.close); Ok(()) }
+}
+impl<'a> ser::SerializeSeq for DumpSeq<'a> { type Ok = (); type Error = Never;
+    fn serialize_element<T: ?Sized + Serialize>(&mut self, v: &T) -> Result<(), Never> { self.item(None, v) } fn end(self) -> Result<(), Never> { self.finish() } }
+impl<'a> ser::SerializeTuple for DumpSeq<'a> { type Ok = (); type Error = Never;
+    fn serialize_element<T: ?Sized + Serialize>(&mut self, v: &T) -> Result<(), Never> { self.item(None, v) } fn end(self) -> Result<(), Never> { self.finish() } }
+impl<'a> ser::SerializeTupleStruct for DumpSeq<'a> { type Ok = (); type Error = Never;
+    fn serialize_field<T: ?Sized + Serialize>(&mut self, v: &T) -> Result<(), Never> { self.item(None, v) } fn end(self) -> Result<(), Never> { self.finish() } }
+impl<'a> ser::SerializeTupleVariant for DumpSeq<'a> { type Ok = (); type Error = Never;
+    fn serialize_field<T: ?Sized + Serialize>(&mut self, v: &T) -> Result<(), Never> { self.item(None, v) } fn end(self) -> Result<(), Never> { self.finish() } }
+impl<'a> ser::SerializeMap for DumpSeq<'a> { type Ok = (); type Error = Never;
+    fn serialize_key<T: ?Sized + Serialize>(&mut self, _: &T) -> Result<(), Never> { Ok(()) }
+    fn serialize_value<T: ?Sized + Serialize>(&mut self, v: &T) -> Result<(), Never> { self.item(None, v) } fn end(self) -> Result<(), Never> { self.finish() } }
+impl<'a> ser::SerializeStruct for DumpSeq<'a> { type Ok = (); type Error = Never;
+    fn serialize_field<T: ?Sized + Serialize>(&mut self, k: &'static str, v: &T) -> Result<(), Never> { self.item(Some(k), v) } fn end(self) -> Result<(), Never> { self.finish() } }
+impl<'a> ser::SerializeStructVariant for DumpSeq<'a> { type Ok = (); type Error = Never;
+    fn serialize_field<T: ?Sized + Serialize>(&mut self, k: &'static str, v: &T) -> Result<(), Never> { self.item(Some(k), v) } fn end(self) -> Result<(), Never> { self.finish() } }
 "#####;
 
 #[derive(Clone, Debug)]
@@ -66,6 +119,7 @@ pub struct Expected {
     pub value: String,
     pub what: String,       // "attribute a of r/x" | "text of r/x"
     pub struct_typed_text: bool, // text of an element that is rendered as a struct (has attributes or children in the merged schema)
+    pub under_nil: bool,         // inside an element that carries `<prefix>:nil="true"` (or inside a child of one)
 }
 
 #[derive(Clone)]
@@ -76,6 +130,9 @@ pub struct Program {
     pub quick_text: String,  // the quick-xml rendering (for the model)
     pub root_struct: String,
     pub expected: Vec<Vec<Expected>>,
+    /// documents the structure was *not* inferred from (variations of the sources): run through the compiled
+    /// program and the deserializer model only for the correspondence of the model
+    pub extra_docs: Vec<Doc>,
 }
 
 #[derive(Clone, Debug, Default)]
@@ -83,13 +140,14 @@ pub struct DocResult {
     pub ok: bool,
     pub err: String,
     pub missing: Vec<Expected>,
+    pub dump: String, // canonical dump of the deserialized value
 }
 
 #[derive(Clone, Debug, Default)]
 pub struct ProgResult {
     pub compiled: bool,
     pub diagnostics: String,
-    pub docs: Vec<DocResult>,      // plain variant
+    pub docs: Vec<DocResult>,      // plain variant; source documents, then the extra documents
     pub docs_deny: Vec<DocResult>, // deny_unknown_fields variant (C02 only)
 }
 
@@ -101,23 +159,26 @@ fn find<'a>(d: &'a DElem, path: &[String]) -> Option<&'a DElem> {
     Some(cur)
 }
 
-fn expected_of(n: &Node, path: &mut Vec<String>, tree: &DElem, out: &mut Vec<Expected>) {
+fn expected_of(n: &Node, path: &mut Vec<String>, tree: &DElem, nil: bool, out: &mut Vec<Expected>) {
     path.push(n.name.clone());
     let here = path.join("/");
+    // quick-xml: an `Option` field whose element, or whose parent element, has xsi:nil="true" becomes `None`
+    let own_nil = n.attrs.iter().any(|(k, v)| k.ends_with(":nil") && (v == "true" || v == "1"));
+    let under = nil || own_nil;
     for (k, v) in &n.attrs {
-        out.push(Expected { value: v.clone(), what: format!("attribute {} of {}", k, here), struct_typed_text: false });
+        out.push(Expected { value: v.clone(), what: format!("attribute {} of {}", k, here), struct_typed_text: false, under_nil: under });
     }
     let struct_typed = find(tree, path).map_or(false, |e| !e.attrs.is_empty() || !e.children.is_empty()) || path.len() == 1;
     let mut text = String::new();
     for it in &n.items {
         match it {
             Item::Text(t) | Item::CData(t) | Item::Ws(t) => text.push_str(t),
-            Item::Elem(c) => expected_of(c, path, tree, out),
+            Item::Elem(c) => expected_of(c, path, tree, under, out),
             _ => {}
         }
     }
     if !text.trim().is_empty() {
-        out.push(Expected { value: text.trim().to_string(), what: format!("text of {}", here), struct_typed_text: struct_typed });
+        out.push(Expected { value: text.trim().to_string(), what: format!("text of {}", here), struct_typed_text: struct_typed, under_nil: under });
     }
     path.pop();
 }
@@ -141,11 +202,11 @@ pub fn make_program(docs: Vec<Doc>, theme: &str, opt: &OptRec) -> Option<Program
         .iter()
         .map(|doc| {
             let mut out = Vec::new();
-            expected_of(&doc.root, &mut Vec::new(), &d, &mut out);
+            expected_of(&doc.root, &mut Vec::new(), &d, false, &mut out);
             out
         })
         .collect();
-    Some(Program { docs, theme: theme.to_string(), text, quick_text, root_struct, expected })
+    Some(Program { docs, theme: theme.to_string(), text, quick_text, root_struct, expected, extra_docs: vec![] })
 }
 
 fn raw(s: &str) -> String {
@@ -213,16 +274,16 @@ pub fn run_batch(name: &str, programs: &[Program], sxr: bool, nbins: usize) -> R
                     );
                     std::fs::write(format!("{}/{}.rs", bdir, m), src).map_err(|e| e.to_string())?;
                     main.push_str(&format!("mod {};\n", m));
-                    body.push_str(&format!("    run::<{}::{}>(\"{}\", &[{}]);\n", m, p.root_struct, m, p.docs.iter().map(|d| raw(&d.to_xml())).collect::<Vec<_>>().join(", ")));
+                    body.push_str(&format!("    run::<{}::{}>(\"{}\", &[{}]);\n", m, p.root_struct, m, p.docs.iter().chain(p.extra_docs.iter()).map(|d| raw(&d.to_xml())).collect::<Vec<_>>().join(", ")));
                 }
             }
             main.push_str("fn hexs(s: &str) -> String { s.bytes().map(|b| format!(\"{:02x}\", b)).collect() }\n");
             main.push_str("fn run<T: serde::de::DeserializeOwned + serde::Serialize>(id: &str, docs: &[&str]) {\n    for (j, d) in docs.iter().enumerate() {\n");
             main.push_str(&format!(
-                "        let r = std::panic::catch_unwind(|| {}::<T>(d).map(|v| collect::strings(&v)).map_err(|e| e.to_string()));\n",
+                "        let r = std::panic::catch_unwind(|| {}::<T>(d).map(|v| (collect::strings(&v), collect::dump(&v))).map_err(|e| e.to_string()));\n",
                 if sxr { "serde_xml_rs::from_str" } else { "quick_xml::de::from_str" }
             ));
-            main.push_str("        match r {\n            Ok(Ok(s)) => println!(\"{} {} ok {}\", id, j, s.iter().map(|x| hexs(x)).collect::<Vec<_>>().join(\",\")),\n            Ok(Err(e)) => println!(\"{} {} err {}\", id, j, hexs(&e)),\n            Err(_) => println!(\"{} {} err {}\", id, j, hexs(\"panic in the deserializer\")),\n        }\n    }\n}\n");
+            main.push_str("        match r {\n            Ok(Ok((s, dmp))) => println!(\"{} {} ok {} {}\", id, j, if s.is_empty() { \"-\".to_string() } else { s.iter().map(|x| if x.is_empty() { \"_\".to_string() } else { hexs(x) }).collect::<Vec<_>>().join(\",\") }, dmp),\n            Ok(Err(e)) => println!(\"{} {} err {}\", id, j, hexs(&e)),\n            Err(_) => println!(\"{} {} err {}\", id, j, hexs(\"panic in the deserializer\")),\n        }\n    }\n}\n");
             main.push_str("fn main() {\n    std::panic::set_hook(Box::new(|_| {}));\n");
             main.push_str(&body);
             main.push_str("}\n");
@@ -274,31 +335,31 @@ pub fn run_batch(name: &str, programs: &[Program], sxr: bool, nbins: usize) -> R
         }
     }
     // run
-    let mut outputs: HashMap<String, Vec<(usize, bool, String)>> = HashMap::new();
+    let mut outputs: HashMap<String, Vec<(usize, bool, String, String)>> = HashMap::new();
     for b in 0..nbins {
         let bin = format!("{}/debug/b{}", BATCH_TARGET, b);
         let out = Command::new(&bin).output().map_err(|e| format!("{}: {}", bin, e))?;
         for l in String::from_utf8_lossy(&out.stdout).lines() {
-            let parts: Vec<&str> = l.splitn(4, ' ').collect();
+            let parts: Vec<&str> = l.split(' ').collect();
             if parts.len() >= 3 {
                 let j: usize = parts[1].parse().unwrap_or(0);
-                outputs.entry(parts[0].to_string()).or_default().push((j, parts[2] == "ok", parts.get(3).unwrap_or(&"").to_string()));
+                outputs.entry(parts[0].to_string()).or_default().push((j, parts[2] == "ok", parts.get(3).unwrap_or(&"").to_string(), parts.get(4).unwrap_or(&"").to_string()));
             }
         }
     }
     for (i, p) in programs.iter().enumerate() {
         for &deny in &variants {
             let m = format!("{}{}", if deny { "d" } else { "p" }, i);
-            let mut docs = vec![DocResult::default(); p.docs.len()];
+            let mut docs = vec![DocResult::default(); p.docs.len() + p.extra_docs.len()];
             if let Some(rows) = outputs.get(&m) {
-                for (j, ok, payload) in rows {
+                for (j, ok, payload, dump) in rows {
                     if *j >= docs.len() {
                         continue;
                     }
                     if *ok {
-                        let mut got: Vec<String> = payload.split(',').filter(|s| !s.is_empty()).map(|h| unhex(h).trim().to_string()).collect();
+                        let mut got: Vec<String> = payload.split(',').filter(|s| !s.is_empty() && *s != "-" && *s != "_").map(|h| unhex(h).trim().to_string()).collect();
                         let mut missing = Vec::new();
-                        for e in &p.expected[*j] {
+                        for e in p.expected.get(*j).map(|v| v.as_slice()).unwrap_or(&[]) {
                             let want = e.value.trim().to_string();
                             if want.is_empty() {
                                 continue;
@@ -310,9 +371,9 @@ pub fn run_batch(name: &str, programs: &[Program], sxr: bool, nbins: usize) -> R
                                 None => missing.push(e.clone()),
                             }
                         }
-                        docs[*j] = DocResult { ok: true, err: String::new(), missing };
+                        docs[*j] = DocResult { ok: true, err: String::new(), missing, dump: dump.clone() };
                     } else {
-                        docs[*j] = DocResult { ok: false, err: unhex(payload), missing: vec![] };
+                        docs[*j] = DocResult { ok: false, err: unhex(payload), missing: vec![], dump: String::new() };
                     }
                 }
             } else if !excluded.contains(&(i, deny)) {
@@ -336,6 +397,8 @@ pub fn program_json(p: &Program, r: &ProgResult) -> Value {
         "kind": "program",
         "theme": p.theme,
         "documents": p.docs.iter().map(|d| d.to_xml()).collect::<Vec<_>>(),
+        "extra_documents": p.extra_docs.iter().map(|d| d.to_xml()).collect::<Vec<_>>(),
+        "values": r.docs.iter().map(|d| d.dump.clone()).collect::<Vec<_>>(),
         "rendered": p.text,
         "compiled": r.compiled,
         "diagnostics": r.diagnostics,
@@ -354,6 +417,47 @@ pub fn d_line(id: &str, prop: &str, p: &Program, compiled: bool, per_doc: &[(boo
     s.push_str(&format!(" RES {}", compiled as u8));
     for (ok, cap) in per_doc {
         s.push_str(&format!(" {} {}", *ok as u8, *cap as u8));
+    }
+    s
+}
+
+fn vnode_tokens(n: &Node, out: &mut String) {
+    let sc = n.items.is_empty() && n.self_closing;
+    out.push_str(&format!("VN {} {} A{}", enc(&n.name), sc as u8, n.attrs.len()));
+    for (k, v) in &n.attrs {
+        out.push_str(&format!(" {} {}", enc(k), enc(v)));
+    }
+    out.push_str(&format!(" I{}", n.items.len()));
+    for it in &n.items {
+        match it {
+            Item::Elem(c) => {
+                out.push_str(" n ");
+                vnode_tokens(c, out);
+            }
+            Item::Text(t) | Item::Ws(t) => out.push_str(&format!(" t {}", enc(t))),
+            Item::CData(t) => out.push_str(&format!(" c {}", enc(t))),
+            Item::PI(_) => out.push_str(" p"),
+            _ => out.push_str(" o"),
+        }
+    }
+}
+
+/// the `E` line: program text, every document (sources, then extras) with its values, and what the compiled
+/// program made of it per variant
+pub fn e_line(id: &str, prop: &str, p: &Program, r: &ProgResult, sxr: bool) -> String {
+    let all: Vec<&Doc> = p.docs.iter().chain(p.extra_docs.iter()).collect();
+    let mut s = format!("E {} {} {} PROG {} K{}", id, prop, sxr as u8, enc(&p.text), all.len());
+    for (j, d) in all.iter().enumerate() {
+        s.push(' ');
+        vnode_tokens(&d.root, &mut s);
+        let variants: Vec<&Vec<DocResult>> = if sxr { vec![&r.docs] } else { vec![&r.docs, &r.docs_deny] };
+        s.push_str(&format!(" V{}", variants.len()));
+        for v in variants {
+            match v.get(j) {
+                Some(dr) if dr.ok => s.push_str(&format!(" 1 {}", if dr.dump.is_empty() { "?" } else { &dr.dump })),
+                _ => s.push_str(" 0 -"),
+            }
+        }
     }
     s
 }
